@@ -1,1 +1,20 @@
-//! shared helpers of this crate's checks
+//! shared helpers of this crate's checks (C11, C12, C14, C15, C17)
+pub mod cal;
+pub mod dictref;
+pub mod num;
+
+/// Compiled constants of dicom-dictionary-std bound to their source names (see build.rs).
+pub mod consts {
+    use dicom_core::dictionary::TagRange;
+    use dicom_core::Tag;
+    #[derive(Clone, Copy, Debug)]
+    pub enum TagConst {
+        T(Tag),
+        R(TagRange),
+    }
+    include!(concat!(env!("OUT_DIR"), "/consts_gen.rs"));
+}
+
+pub fn hex(b: &[u8]) -> String {
+    b.iter().map(|x| format!("{x:02X}")).collect::<Vec<_>>().join(" ")
+}
